@@ -137,6 +137,10 @@ func merge(st []byte, a inc, c cfg) ([]byte, error) {
 
 func main() {
 	flag.Parse()
+	if v, ok := ev.ReplayRequested(); ok {
+		fmt.Printf("  this check enumerates inputs; the replay artefact names the failing input directly: %v\n", v.Replay)
+		return
+	}
 	r := ev.Start("C02")
 	defer r.RecoverMain()
 	defer world.Cleanup()
